@@ -78,6 +78,29 @@ CLAIMED.update({
             "DESIGN.md 5 C10"),
 })
 
+CLAIMED.update({
+    "C11": ("model_checking",
+            "LineCol.tla gives (line, column) for every byte offset; TLC enumerates every text up to the bound over multibyte and "
+            "separator classes and the real get_line_column must agree at every offset; recorded locations of every AST / schema / "
+            "executable node and name and every diagnostic position of generated documents are validated by TLC.",
+            "Rendered-text positions are read from the report header; one known finding (ariadne line table in rendered text).",
+            "TLA+ reference function executed by TLC; exhaustive bounded enumeration replayed + TLC trace validation of recorded locations",
+            "DESIGN.md 5 C11"),
+    "C23": ("model_checking",
+            "Coordinate.tla (parse / print / lookup; print-parse inverse checked in the model); every string up to the bound and every "
+            "coordinate over a name universe replayed on the five FromStr impls, Display and lookup; recorded random strings validated by TLC.",
+            "The harness's fixed SDL must match MC_Coordinate!TheSchema.",
+            "TLA+ reference executed by TLC; exhaustive bounded enumeration replayed + TLC trace validation",
+            "DESIGN.md 5 C23"),
+    "C29": ("model_checking",
+            "TypeCompat.tla transcribes the three spec algorithms; all pairs of type references up to the depth bound x defaults x "
+            "subtype relations are enumerated by TLC (with cross-operator invariants) and replayed exhaustively; deep random pairs "
+            "are validated by TLC.",
+            "Two of the three predicates are observed through validation verdicts of minimal isolating inputs.",
+            "TLA+ transcription of the spec algorithms; exhaustive TLC enumeration replayed + TLC trace validation",
+            "DESIGN.md 5 C29"),
+})
+
 NOT_APPLICABLE = {}
 
 ALL = ["C%02d" % i for i in range(1, 34)]
